@@ -195,6 +195,26 @@ func (w *World) TRC(a APayload) cppki.TRC {
 
 const offGrid = -99999
 
+// AbstractSub is Abstract for TRCs whose validity may lie off the abstract time grid (sub-second
+// parts): validity instants are rounded down to the grid and sub reports whether anything was cut.
+func (w *World) AbstractSub(t cppki.TRC) (APayload, int) {
+	a := w.Abstract(t)
+	sub := 0
+	floor := func(x time.Time) int {
+		d := x.Sub(w.Clk.Base)
+		k := int(d / w.Clk.Unit)
+		if d%w.Clk.Unit != 0 {
+			sub = 1
+			if d < 0 {
+				k--
+			}
+		}
+		return k
+	}
+	a.NB, a.NA = floor(t.Validity.NotBefore), floor(t.Validity.NotAfter)
+	return a, sub
+}
+
 // Abstract is the abstraction function for decoded TRCs (inverse of TRC on its image; values
 // outside the tables map to sentinels that equal no generated value).
 func (w *World) Abstract(t cppki.TRC) APayload {
